@@ -238,7 +238,7 @@ def run_check(prop: Prop, tier: str, seed: int, replay: str | None = None) -> in
         # a proof obligation that no longer checks: search for a failing input, then report
         if audit["failed"]:
             found = None
-            for case in _take(prop.cases(random.Random(seed + 17), tier), prop.budgets[tier] * 2):
+            for case in _take(prop.cases(random.Random(seed + 17), tier), min(60, prop.budgets[tier])):
                 found = search_failing_input(prop, case, rng, 1)
                 if found:
                     break
